@@ -1,5 +1,5 @@
 (* C06 -- Generated function bodies have sound control flow and define before use.  ONLY property theorems here. *)
-From QV Require Import model.Base model.Lang model.Types model.Tir model.CfgCheck model.Builder model.Passes model.TirCase gen.GenE0 proofs.CfgProofs proofs.BuilderInv proofs.BuilderSafe proofs.BuilderSafeSwitch proofs.BuilderCfg.
+From QV Require Import model.Base model.Lang model.Types model.Tir model.CfgCheck model.Builder model.Passes model.TirCase gen.GenE0 proofs.CfgProofs proofs.BuilderInv proofs.BuilderSafe proofs.BuilderSafeSwitch proofs.BuilderCfg proofs.BuilderOpenCount.
 Open Scope nat_scope.
 
 (* FULL statement (over ALL programs and class environments): every accepted binding or callback is translated to a
@@ -56,6 +56,26 @@ Theorem C06_jump_targets_exist : forall E cb c, wf_callback cb = true -> bu_code
     match t with TmBr l => l < List.length (c_blocks c) /\ l <> i | TmBrCond _ x y => x < List.length (c_blocks c) /\ y < List.length (c_blocks c) | _ => True end.
 Proof. intros E cb c Hwf H. exact (build_jump_targets_exist E cb c Hwf H). Qed.
 Print Assumptions C06_jump_targets_exist.
+
+(* the second clause, first half ("control never runs off the end"), for ALL programs: in every function body the model of tir::build
+   produces EVERY block -- reachable or not -- has its terminator.  The proof counts open blocks through the whole translator
+   (proofs/BuilderOpenCount.v): each construct closes exactly the labels it marked (ternary 3, && || 2, if 2 or 3, switch one per
+   case label and per body plus head and exit; break and return close the current block and open a new one), so a walk that reports
+   success leaves the count at 1; the current block is open (Good), hence it is the only open one, and finalize_completion_values
+   closes it.  What stays per-program (cfg_ok, evaluated by the check): that no REACHABLE block ends in the unreachable marker. *)
+Theorem C06_every_block_terminated : forall E cb c, wf_callback cb = true -> bu_code (build_callback E cb) = Some c ->
+  forall i b, nth_error (c_blocks c) i = Some b -> b_term b <> None.
+Proof.
+  intros E cb c Hwf H i b Hb. pose proof (build_every_block_terminated E cb c Hwf H) as X. unfold closed_all in X.
+  rewrite Forall_forall in X. apply X. eapply nth_error_In. exact Hb.
+Qed.
+Print Assumptions C06_every_block_terminated.
+
+(* ... and before the final pass: a walk that reports success leaves every block but the current one terminated *)
+Theorem C06_walk_leaves_one_open_block : forall E cb env s, wf_callback cb = true -> walk_callback E cb bstate0 = (V (true, env), s) ->
+  forall i b, i < List.length (bs_blocks s) - 1 -> nth_error (bs_blocks s) i = Some b -> b_term b <> None.
+Proof. exact walk_leaves_one_open. Qed.
+Print Assumptions C06_walk_leaves_one_open_block.
 
 (* non-vacuity of the checker: it rejects a body whose reachable block ends in the unreachable marker, one that reads
    an unassigned temporary, and one that jumps out of range *)
